@@ -91,10 +91,10 @@ func finish() {
 	rep.Extra["duplicate_cases_dropped"] = cases.Dups
 	rep.Extra["budgets"] = map[string]interface{}{
 		"alloc":            "TotalAlloc delta of one call <= 64 KiB + 4096 * len(input) (+ what the wire deserialiser itself allocated on the same bytes, for NewBlock*/NewTx*)",
-		"time":             fmt.Sprintf("one call <= %v + %v * len(input) of CPU time, the larger of the calling thread's clock and the whole process's clock (getrusage), minimum of up to three runs", timeBase, timePerByte),
+		"time":             fmt.Sprintf("one call <= %v + %v * len(input) of the calling thread's CPU time, and twice that + 4 ns per allocated byte on the whole process's CPU clock (getrusage: every goroutine, and the garbage collector), minimum of up to three runs", timeBase, timePerByte),
 		"hang":             fmt.Sprintf("watchdog: a call running longer than %v is reported as C08:<entry>:time and the harness stops", hardLimit),
 		"scaling":          fmt.Sprintf("thread CPU T(2n)/T(n) <= %.1f once T(2n) > %v, and T(2n) <= %v; process CPU (getrusage, all goroutines) Tproc(2n)/Tproc(n) <= %.1f once Tproc(2n) > %v; allocation A(2n)/A(n) <= %.1f once A(2n) > %d bytes", ratioMax, ratioFloor, scaleCap, procRatioMax, procRatioFloor, allocRatioMax, allocRatioFloor),
-		"declared_counts":  fmt.Sprintf("same body, different claimed count: A(hostile count) <= max A(honest counts) + %d + %d*len(body)", diffSlack, diffPerByte),
+		"declared_counts":  fmt.Sprintf("same body, different claimed count: A(hostile count) <= max A(honest counts) + %d + k*len(body), k = %d (merkle), %d (GCS), 0 (bloom hash functions)", diffSlack, diffPerByteMerkle, diffPerByteGCS),
 		"size_sweep_hang":  fmt.Sprintf("child process; a probe that burns more than %v of CPU or does not return within %v is a hang", sizeCPULimit, sizeWallLimit),
 		"gcs_child_memory": fmt.Sprintf("ulimit -v %d KiB", gcsMemCapKiB),
 	}
